@@ -97,6 +97,8 @@ class Unit:
             value = float(value)
         except ValueError as exc:
             raise ValueError("Value is not a valid float.") from exc
+        if value != value:  # float() accepts 'nan'
+            raise ValueError("Value is not a valid float.")
 
         if unit == 'U':
             return value, unit
@@ -139,6 +141,8 @@ class Unit:
                 numerator[0] /= float(denominator.pop(0))
         except ValueError as exc:
             raise ValueError("Value is not a float.") from exc
+        if numerator[0] != numerator[0]:  # float() accepts 'nan'
+            raise ValueError("Value is not a float.")
         units = ('mol', 'L', 'g', 'U')
         for unit in units:
             if numerator[1].endswith(unit):
